@@ -803,6 +803,8 @@ func settle(srv *lrsrv.Srv, tags string, want int) {
 	}
 	last := ""
 	for i := 0; i < 1000; i++ {
+		// acknowledged records become visible at the next flush; do not depend on the flush timer being on time
+		j.Sync()
 		s, ok := sig()
 		if ok && s == last {
 			return
@@ -1601,6 +1603,7 @@ func writerCase(sec *vh.Section, rng *vh.Rng) {
 	defer srv.Stop()
 	tags := "g=w,p=1"
 	seq := 1
+	unacked := map[int]bool{}
 	write := func(n int) error {
 		var evs []*api.LogEvent
 		for k := 0; k < n; k++ {
@@ -1608,10 +1611,17 @@ func writerCase(sec *vh.Section, rng *vh.Rng) {
 			seq++
 		}
 		var wr api.WriteResult
-		if err := srv.Client.Write(context.Background(), tags, "", evs, &wr); err != nil {
-			return err
+		err := srv.Client.Write(context.Background(), tags, "", evs, &wr)
+		if err == nil {
+			err = wr.Err
 		}
-		return wr.Err
+		if err != nil {
+			// not acknowledged: these events may or may not exist afterwards; the oracle ignores them
+			for _, e := range evs {
+				unacked[seqOf(e.Message)] = true
+			}
+		}
+		return err
 	}
 	for b := 0; b < rng.Range(3, 6); b++ {
 		write(rng.Range(3, 8))
@@ -1667,9 +1677,19 @@ func writerCase(sec *vh.Section, rng *vh.Rng) {
 	}
 	written := make([]int, 0, seq)
 	for s := 1; s < seq; s++ {
-		written = append(written, s)
+		if !unacked[s] {
+			written = append(written, s)
+		}
 	}
-	as := after.seqs()
+	var as []int
+	for _, s := range after.seqs() {
+		if !unacked[s] {
+			as = append(as, s)
+		}
+	}
+	if len(unacked) > 0 {
+		res.Dist(sec, "cases with write requests that were refused while TRUNCATE ran")
+	}
 	removed := len(written) - len(as)
 	key := ""
 	if removed > 0 {
@@ -1682,7 +1702,13 @@ func writerCase(sec *vh.Section, rng *vh.Rng) {
 			What: "with a concurrent writer the partition's content after TRUNCATE is not (old content ++ appended events) minus an old prefix"})
 		return
 	}
-	rs, rerr := readSeqs(after.Read)
+	rs0, rerr := readSeqs(after.Read)
+	var rs []int
+	for _, s := range rs0 {
+		if !unacked[s] {
+			rs = append(rs, s)
+		}
+	}
 	if rerr != "" || fmt.Sprint(rs) != fmt.Sprint(as) {
 		res.SpecFail(vh.SpecFailure{Section: "writer", Kind: "read-after-truncate", Input: in, Impl: fmt.Sprint(after.Read), Spec: fmt.Sprint(as),
 			What: "a full read after TRUNCATE with a concurrent writer does not return the remaining events"})
